@@ -231,6 +231,11 @@ func traversal(n int, down bool, s, peer int) []hopRef {
 // processEgress, no update when peering) with the real UpdateSegID, starting from the real
 // calculateBeta, and verifies every hop's MAC with the key of its AS.
 func (c *chainCase) walk(down bool, s, peer int) (used []uint16, final uint16, firstBad int) {
+	defer func() {
+		if e := recover(); e != nil {
+			used, final, firstBad = nil, 0, -2 // the implementation panicked on a valid edge
+		}
+	}()
 	inf := path.InfoField{ConsDir: down, Peer: peer != 0, Timestamp: c.ts,
 		SegID: combinator.VerifNetCalculateBeta(edgeOf(c.s, down, s, peer))}
 	hs := traversal(len(c.s.ASEntries), down, s, peer)
@@ -366,7 +371,11 @@ func main() {
 					}
 					e.Op(fmt.Sprintf("sync %d %d %d %d %d%s", b2i(down), s, b2i(peer != 0), pm, c.s0, nums(c.sigma)),
 						ans, "sync/"+kind)
-					if bad >= 0 {
+					if bad == -2 {
+						e.Violate("C22/"+kind, fmt.Sprintf("segment of %d ASes, %s at AS entry %d: calculateBeta panics",
+							n, kind, s), map[string]any{"n": n, "down": down, "entry": s, "peer": peer, "s0": c.s0,
+							"sigma": c.sigma})
+					} else if bad >= 0 {
 						e.Violate("C22/"+kind, fmt.Sprintf("segment of %d ASes, %s at AS entry %d: the SegID %#04x "+
 							"walked to hop %d of the traversal does not authenticate that hop field",
 							n, kind, s, used[bad], bad),
